@@ -544,7 +544,7 @@ class Sem:
             # alternatives that contradict the observed truth are ruled out; a single remaining alternative is what was observed
             # (a constant alternative that AGREES with the observed truth rules nothing out: the flag may owe its value to it)
             rest = [a for a in x.args if not (a.op == "const" and a.info[0] == "scalar" and bool(a.info[1]) != truth)]
-            if len(rest) == 1 and len(rest) < len(x.args):
+            if len(rest) == 1 and len(rest) < len(x.args) and rest[0].op != "const":
                 return self._norm_bool(self.w.ident(rest[0], expand_ws=False), truth, depth + 1)
         if x.op == "bin" and x.info in self.NEG:
             op = x.info if truth else self.NEG[x.info]
